@@ -13,7 +13,7 @@ RULE = ('sampled (Hypothesis-decoded): rates in (-0.9, 10] incl. 0; cash '
         'drawn root r* in (0,10] (non-negative returns, outlay '
         'c0 = -sum c_i/(1+r*)^t_i, so there is one sign change, a positive '
         'undiscounted sum and exactly one root, known in advance); strictly '
-        'increasing date serials; (rate, nper 1..480, pv, fv, type) and '
+        'increasing date serials; (rate, nper 1..480 whole or fractional, pv, fv, type) and '
         '(cost, salvage, life>0); direct calls with native numbers and '
         'formulas with the flows in ranges.  Oracle: closed forms with '
         'math.fsum (1e-9 relative), IRR/XIRR against r* (1e-6 absolute) and '
@@ -68,7 +68,12 @@ def _build(d):
             nper = min(nper, int(250 / math.log10(1 + r)))
         elif r < 0:
             nper = min(nper, int(250 / -math.log10(1 + r)))
-        return {'k': 'PMTPV', 'r': r, 'n': max(1, nper),
+        nper = max(1, nper)
+        if d.pick(4) == 0:
+            # fractional and float-typed numbers of periods (the closed
+            # forms hold for any nper > 0)
+            nper = nper + d.choice([0.5, 0.25, 0.75, 0.0, 0.01])
+        return {'k': 'PMTPV', 'r': r, 'n': nper,
                 'pv': d.int(-1000000, 1000000) / 10.0,
                 'fv': 0 if d.pick(2) else d.int(-100000, 100000) / 10.0,
                 'type': d.pick(2), 'mode': mode}
